@@ -1,4 +1,4 @@
-"""C20 — time-series filters equal their definitions (the moment-summary finiteness clause is not applicable, see note)."""
+"""C20 — time-series filters equal their definitions; the moment summary is finite whatever the numerical kernels return."""
 from __future__ import annotations
 
 from fractions import Fraction
@@ -13,28 +13,31 @@ from symx.npx import NPX, patched
 
 LEVEL = "other"
 FUNCTIONS = ["black_it.utils.time_series:hp_filter", "black_it.utils.time_series:hp_cycle_lamb1600_filter",
-             "black_it.utils.time_series:log_and_hp_filter", "black_it.utils.time_series:diff_log_demean_filter"]
-NUMBER_MODEL = "R exact; log uninterpreted; the sparse solve replaced by its contract (returns x with A x = b)"
+             "black_it.utils.time_series:log_and_hp_filter", "black_it.utils.time_series:diff_log_demean_filter", "black_it.utils.time_series:get_mom_ts_1d"]
+NUMBER_MODEL = "filters: R exact; log uninterpreted; the sparse solve replaced by its contract (returns x with A x = b). Moment summary: bit-precise binary64 (z3 FloatingPoint(11,53)) for sign / abs / multiply / nan_to_num, pow uninterpreted with its IEEE special-value cases"
 EXPLANATION = (
     "The real hp_filter builds its matrix through a dense, symbolic stand-in for scipy.sparse (eye, dia_matrix, .T, .dot, +, scalar *), "
     "validated against real scipy on concrete inputs at check start. For a symbolic series and symbolic lambda > 0 z3 proves that the "
     "matrix handed to spsolve is I + lambda K'K with K the (n-2) x n second-difference operator and that the right-hand side is the "
     "series; with the solver contract the returned pair satisfies cycle + trend = series and (I + lambda K'K) trend = series. The three "
     "wrappers are proved equal to their definitions (lambda = 1600, log minus HP trend of the log, de-meaned first difference of the log: "
-    "same length, sums to zero)."
+    "same length, sums to zero). Moment summary: the real get_mom_ts_1d runs on an opaque series with numpy's reductions, scipy.stats.skew/kurtosis and "
+    "statsmodels' acf replaced by functions returning ARBITRARY binary64 values (finite, NaN, +inf, -inf - the weakest contract, which covers "
+    "constant series, overflow and every length); z3 proves in the floating-point theory that each of the 18 entries of the returned array is finite."
 )
 ASSUMPTIONS = [
     "scipy.sparse.linalg.spsolve(A, b) returns x with A x = b (UMFPACK accuracy outside the claim)",
     "dense stand-in for sps.eye / sps.dia_matrix / .T / .dot: differential validation against real scipy at check start",
     "np.log uninterpreted; series positive for the log filters",
+    "moment summary: np.mean/np.std/skew/kurtosis/acf may return any double; np.power(x, e) for 0<e<1: NaN->NaN, +inf->+inf, finite x>=0 -> finite >=0; np.sign, abs, *, nan_to_num are the IEEE/numpy operations",
 ]
-OUTSIDE = ["the 18-number moment summary clause (scipy.stats.skew/kurtosis, statsmodels acf: compiled third-party code and IEEE special values; not encodable, and an uninterpreted stub would make the clause vacuous)",
+OUTSIDE = ["what scipy.stats.skew/kurtosis and statsmodels acf actually return (compiled third-party code): the finiteness claim holds for ANY doubles they return, exceptions raised by them are outside",
            "lengths above 8 (quick) / 24 (thorough)", "numerical accuracy of the sparse solver"]
-REQUIRED_LABELS = ["hp_matrix", "hp_rhs_and_split", "hp_optimality", "wrapper_cycle1600", "wrapper_log_hp", "wrapper_diff_log_demean"]
+REQUIRED_LABELS = ["hp_matrix", "hp_rhs_and_split", "hp_optimality", "wrapper_cycle1600", "wrapper_log_hp", "wrapper_diff_log_demean", "moments_finite"]
 
 
 def bounds(tier):
-    return {"quick": "series length 3..8, lambda symbolic > 0", "thorough": "series length 3..24, 32, 40, 48"}[tier]
+    return {"quick": "series length 3..8, lambda symbolic > 0; moment summary: any length (series opaque), 16 kernel outputs arbitrary binary64", "thorough": "series length 3..24, 32, 40, 48; moment summary as quick"}[tier]
 
 
 class Dense:
@@ -303,6 +306,191 @@ def _replay_wrappers(n, y):
         return bool(msgs), f"n={n} y={y.tolist()}: " + ("; ".join(msgs) or "ok")
 
 
+# ---------------------------------------------------------------------------------------------------------------------------
+# Moment-summary clause: "the 18 numbers are finite for every finite series". The numbers come out of numpy reductions and of
+# compiled third-party kernels (scipy.stats.skew/kurtosis, statsmodels acf) that cannot be encoded; what the repository's own
+# code contributes - and what a change to it can break - is the IEEE special-value plumbing: sign * power(|.|), the slots of
+# the result array and the final in-place nan_to_num. That part is decided bit-precisely in binary64 (z3 FloatingPoint(11,53))
+# under the weakest contract for the kernels: each may return ANY double - finite, NaN, +inf, -inf.
+FP64 = z3.Float64()
+_RNE = z3.RNE()
+UF_POW64 = z3.Function("ieee_pow", FP64, FP64, FP64)
+_DMAX = z3.FPVal(float(np.finfo(np.float64).max), FP64)
+
+
+class D:
+    """A symbolic binary64 value: the operations get_mom_ts_1d applies to it are the IEEE ones."""
+
+    def __init__(self, t):
+        self.t = t
+
+    @staticmethod
+    def of(x):
+        return x.t if isinstance(x, D) else z3.FPVal(float(x), FP64)
+
+    def __mul__(self, o):
+        return D(z3.fpMul(_RNE, self.t, D.of(o)))
+
+    __rmul__ = __mul__
+
+    def __abs__(self):
+        return D(z3.fpAbs(self.t))
+
+
+class _Series:
+    """Opaque finite series of some length: only handed on to the (stubbed) reductions and kernels."""
+
+    def __init__(self, tag):
+        self.tag = tag
+
+
+def _finite(t):
+    return z3.And(z3.Not(z3.fpIsNaN(t)), z3.Not(z3.fpIsInf(t)))
+
+
+class MomentWorld:
+    """numpy / scipy.stats / statsmodels as seen by get_mom_ts_1d, with arbitrary-double contracts."""
+
+    def __init__(self, ctx):
+        self.ctx = ctx
+        self.n = 0
+        self.calls = []
+
+    def fresh(self, what):
+        v = z3.FP(f"{what}#{self.n}", FP64)
+        self.n += 1
+        self.ctx.inputs[str(v)] = v
+        self.calls.append(what)
+        return D(v)
+
+    # --- numpy ---
+    def zeros(self, n, *a, **k):
+        return np.array([D(z3.FPVal(0.0, FP64)) for _ in range(int(n))], dtype=object)
+
+    def mean(self, x, *a, **k):
+        assert isinstance(x, _Series)
+        return self.fresh(f"mean({x.tag})")
+
+    def std(self, x, *a, **k):
+        assert isinstance(x, _Series)
+        return self.fresh(f"std({x.tag})")
+
+    def diff(self, x, *a, **k):
+        return _Series(f"diff({x.tag})")
+
+    def absolute(self, x, *a, **k):
+        return _Series(f"abs({x.tag})") if isinstance(x, _Series) else abs(x)
+
+    abs = absolute
+
+    def sign(self, x):
+        t = D.of(x)
+        one = z3.FPVal(1.0, FP64)
+        return D(z3.If(z3.fpIsNaN(t), t, z3.If(z3.fpGT(t, z3.FPVal(0.0, FP64)), one, z3.If(z3.fpLT(t, z3.FPVal(0.0, FP64)), z3.fpNeg(one), z3.FPVal(0.0, FP64)))))
+
+    def power(self, x, e):
+        t, et = D.of(x), D.of(e)
+        r = UF_POW64(t, et)
+        # IEEE pow for a finite exponent in (0, 1): NaN -> NaN, +inf -> +inf, finite x >= 0 -> finite result >= 0
+        self.ctx.solver.add(z3.Implies(z3.fpIsNaN(t), z3.fpIsNaN(r)), z3.Implies(z3.And(z3.fpIsInf(t), z3.fpIsPositive(t)), z3.And(z3.fpIsInf(r), z3.fpIsPositive(r))),
+                            z3.Implies(z3.And(_finite(t), z3.fpGEQ(t, z3.FPVal(0.0, FP64))), z3.And(_finite(r), z3.fpGEQ(r, z3.FPVal(0.0, FP64)))))
+        assert isinstance(e, float) and 0 < e < 1
+        return D(r)
+
+    def nan_to_num(self, x, copy=True, nan=0.0, posinf=None, neginf=None):  # noqa: FBT002
+        pos = _DMAX if posinf is None else D.of(posinf)
+        neg = z3.fpNeg(_DMAX) if neginf is None else D.of(neginf)
+
+        def clean(t):
+            return z3.If(z3.fpIsNaN(t), D.of(nan), z3.If(z3.fpIsInf(t), z3.If(z3.fpIsNegative(t), neg, pos), t))
+
+        out = np.array([D(clean(D.of(v))) for v in x], dtype=object)
+        if copy:
+            return out
+        x[:] = out
+        return x
+
+    inf, nan = float("inf"), float("nan")
+
+    def array(self, x, *a, **k):
+        return np.array(x, dtype=object)
+
+    # --- scipy.stats ---
+    def skew(self, x, *a, **k):
+        return self.fresh(f"skew({x.tag})")
+
+    def kurtosis(self, x, *a, **k):
+        return self.fresh(f"kurtosis({x.tag})")
+
+    # --- statsmodels ---
+    @property
+    def tsa(self):
+        return self
+
+    def acf(self, x, nlags=None, fft=None, **k):
+        return [self.fresh(f"acf({x.tag})[{i}]") for i in range(int(nlags) + 1)]
+
+
+def case_moments():
+    def body(ctx):
+        w = MomentWorld(ctx)
+        with patched(ts, np=w, skew=w.skew, kurtosis=w.kurtosis, sm=w):
+            out = ts.get_mom_ts_1d(_Series("x"))
+        ctx.prove(z3.BoolVal(isinstance(out, np.ndarray) and out.shape == (18,)), "moments_finite", "the summary has 18 entries")
+        for i in range(min(18, len(out))):
+            ctx.prove(_finite(D.of(out[i])), "moments_finite", f"entry {i} of the moment summary is finite whatever doubles (NaN, +-inf included) the reductions and kernels return")
+        ctx.sample({"kernel_calls": w.calls})
+
+    def replay(cex):
+        return replay_moments(cex.values)
+
+    return Case("moment-summary", body, replay, solver_timeout_ms=120000)
+
+
+def replay_moments(values):
+    """(a) the model's kernel outputs injected into the real function running on real numpy; (b) natural degenerate series with
+    the real kernels (constant, constant differences, huge values overflowing the reductions)."""
+    import math
+    import warnings
+
+    def val(prefix, default=0.0):
+        for k, v in values.items():
+            if k.startswith(prefix + "#") and v is not None:
+                return float(v)
+        return default
+
+    msgs = []
+    with warnings.catch_warnings():
+        warnings.simplefilter("ignore")
+
+        class _SM:
+            class tsa:  # noqa: N801
+                @staticmethod
+                def acf(x, nlags=5, fft=False):  # noqa: FBT002
+                    tag = "x" if len(x) == 8 else "abs(diff(x))"
+                    return np.array([val(f"acf({tag})[{i}]") for i in range(nlags + 1)])
+
+        x = np.linspace(0.0, 1.0, 8) ** 2
+        try:
+            with patched(ts, np=np, skew=lambda a: val("skew(x)") if len(a) == 8 else val("skew(abs(diff(x)))"),
+                         kurtosis=lambda a: val("kurtosis(x)") if len(a) == 8 else val("kurtosis(abs(diff(x)))"), sm=_SM):
+                out = ts.get_mom_ts_1d(x)
+            if np.shape(out) != (18,) or not np.all(np.isfinite(out)):
+                msgs.append(f"kernel outputs of the model injected: summary {np.asarray(out).tolist()}")
+        except Exception as e:  # noqa: BLE001
+            msgs.append(f"get_mom_ts_1d raised {type(e).__name__}: {e}")
+        for name, series in (("constant", np.full(8, 3.0)), ("linear", np.arange(10.0)), ("alternating", np.array([1.0, -1.0] * 6)),
+                             ("huge", np.array([1.7e308, 1.6e308] * 5)), ("huge alternating", np.array([1.7e308, -1.7e308] * 5)), ("zeros", np.zeros(9))):
+            try:
+                out = ts.get_mom_ts_1d(series)
+                if np.shape(out) != (18,) or not np.all(np.isfinite(out)):
+                    bad = [i for i, v in enumerate(np.asarray(out).ravel()) if not math.isfinite(v)]
+                    msgs.append(f"{name} series of length {len(series)}: entries {bad} not finite")
+            except Exception as e:  # noqa: BLE001
+                msgs.append(f"{name} series: get_mom_ts_1d raised {type(e).__name__}: {e}")
+    return bool(msgs), "; ".join(msgs[:4]) or "all summaries finite (injected kernel outputs and six degenerate series with the real kernels)"
+
+
 def precheck(tier, seed):
     """Differential validation of the dense stand-in against real scipy.sparse."""
     import scipy.sparse as sps
@@ -328,11 +516,12 @@ def cases(tier, seed):
     cs = [case_hp(n) for n in ns]
     cs += [case_two_calls(n) for n in (list(ns)[:3] if tier == "quick" else [3, 4, 6, 9, 16])]
     cs += [case_wrappers(n) for n in (list(ns)[:4] if tier == "quick" else [3, 4, 5, 6, 8, 12, 16, 24, 32])]
+    cs.append(case_moments())
     return cs
 
 
 MANIFEST = {
     "category": "other",
-    "text": "Symbolic execution of the real hp_filter and the three derived filters with a symbolic series and lambda: z3 proves the linear system handed to the sparse solver is exactly (I + lambda K'K) x = series, hence (solver contract) cycle + trend = series and the HP optimality condition, and that each wrapper equals its definition (lambda 1600; log minus HP trend of log; de-meaned first log-difference of equal length and zero sum), for every length within the bound.",
-    "note": "The clause '18-number moment summary is finite' is NOT covered (scipy.stats / statsmodels internals and IEEE special values are out of solver reach) - C20 is claimed for the filter clauses only. spsolve replaced by its contract; scipy.sparse constructors by a dense stand-in validated differentially; exact reals.",
+    "text": "Symbolic execution of the real hp_filter and the three derived filters with a symbolic series and lambda: z3 proves the linear system handed to the sparse solver is exactly (I + lambda K'K) x = series, hence (solver contract) cycle + trend = series and the HP optimality condition, and that each wrapper equals its definition (lambda 1600; log minus HP trend of log; de-meaned first log-difference of equal length and zero sum), for every length within the bound. The real get_mom_ts_1d is executed with every reduction/kernel output an arbitrary binary64 value (NaN and infinities included) and z3 proves bit-precisely (floating-point theory) that all 18 entries returned are finite.",
+    "note": "Moment summary: what scipy.stats / statsmodels return is not encoded - they are given the weakest contract (any double), so the claim is about the repository's own special-value handling (sign*power, slots, in-place nan_to_num). spsolve replaced by its contract; scipy.sparse constructors by a dense stand-in validated differentially; exact reals for the filters.",
 }
